@@ -275,8 +275,13 @@ func VerifDispatchFindingNegativeIndex() {
 // absent. Regression check for FINDINGS.md F4 (fixed upstream by c60f470).
 func VerifDispatchFindingMissingBody() {
 	verif14Options()
-	e := verif14NewEnv(1 + verif.Choice("torrent_state", verif.Bound("finding_states", 1, 2)))
-	e.d.dispatch(e.p, verif14Adversarial(verif14Type(), false, 0))
+	ty := verif14Type()
+	advBits := uint(8)
+	if ty == p2p.Message_COMPLETE {
+		advBits = 3 // see F6 / VerifDispatchFindingLongBitfieldComplete
+	}
+	e := verif14NewEnvBits(1+verif.Choice("torrent_state", verif.Bound("finding_states", 1, 2)), advBits)
+	e.d.dispatch(e.p, verif14Adversarial(ty, false, 0))
 	e.afterwards()
 }
 
@@ -294,7 +299,7 @@ func VerifDispatchFindingOversizedBitfield() {
 	var pid core.PeerID
 	pid[0] = 0x53
 	err := e.d.AddPeer(pid, false, b, &verif14Messages{recv: make(chan *conn.Message)})
-	_ = err // rejected or accepted: either way no panic
+	verif.Cover("oversized-bitfield-rejected", err != nil) // rejected or accepted: either way no panic
 	e.afterwards()
 }
 
